@@ -155,6 +155,28 @@ pub fn lattice_orient(cx: &mut Ctx, case: &Value) {
         let got = sign_of(SimpleKernel::orient2d(j(a), j(b), j(q)));
         if got == want { cx.ok("orient2d_i32"); } else { cx.bad("C03", "orient2d_i32", case, json!({"got": got, "want": want})); }
     }
+    // winding order of the triangle a b q written with extra collinear vertices (edge midpoints) and with zeros of MIXED sign
+    // (0.0 == -0.0: the same points; an ordering that separates the two zeros picks another "least" vertex)
+    for (q, key) in [(c, "o1"), (d, "o2")] {
+        let want = case[key].as_i64().unwrap();
+        if want == 0 || a == b {
+            continue;
+        }
+        let f = |p: (i64, i64)| Coord { x: p.0 as f64, y: p.1 as f64 };
+        let mid = |p: (i64, i64), r: (i64, i64)| Coord { x: (p.0 + r.0) as f64 / 2.0, y: (p.1 + r.1) as f64 / 2.0 };
+        let base = vec![f(a), mid(a, b), f(b), mid(b, q), f(q), mid(q, a), f(a)];
+        let want_wo = Some(if want == 1 { WindingOrder::CounterClockwise } else { WindingOrder::Clockwise });
+        for parity in 0..3usize {
+            let ring: Vec<Coord<f64>> = base.iter().enumerate().map(|(i, c)| if parity < 2 && i % 2 == parity {
+                Coord { x: if c.x == 0.0 { -0.0 } else { c.x }, y: if c.y == 0.0 { -0.0 } else { c.y } } } else { *c }).collect();
+            let ls = LineString::new(ring);
+            let got = ls.winding_order();
+            if got == want_wo && ls.is_ccw() == (want == 1) && ls.is_cw() == (want == -1) { cx.ok("winding_order_signed_zeros"); } else {
+                cx.bad("C03", "winding_order_signed_zeros", case, json!({"what": format!("triangle a b {key} with edge midpoints, zeros at positions of parity {parity} negative"),
+                    "ring": ls.0.iter().map(|c| format!("{:?} {:?}", c.x, c.y)).collect::<Vec<_>>(), "got": format!("{got:?}"), "want": format!("{want_wo:?}")}));
+            }
+        }
+    }
     // the two other kernel helpers: sign of a dot product (robust) and the squared distance
     {
         let want = case["dots"].as_i64().unwrap();
